@@ -5,10 +5,10 @@
 # (or /verif/seeded/<ID>/patch.diff), checked with the quick tier of the given checks through
 # tools/check_against.sh. One slot (/tmp/seed3/det) is reused so the harness build is incremental.
 ID="$1"; shift
-P=/tmp/seed3/out-$ID/patch.diff; [ -f $P ] || P=/verif/seeded/$ID/patch.diff
+P=/tmp/seed3/out-$ID/patch-on-current-head.diff; [ -f $P ] || P=/tmp/seed3/out-$ID/patch.diff; [ -f $P ] || P=/verif/seeded/$ID/patch-on-current-head.diff; [ -f $P ] || P=/verif/seeded/$ID/patch.diff
 W=/tmp/seed3/det; LOG=/tmp/seed3/detect-$ID.log
 if [ ! -d $W ]; then git -C /repo worktree add -q --detach $W HEAD || exit 2; fi
-cd $W && git checkout -q -- . && git clean -fdq && git checkout -q --detach $(git -C /repo rev-parse HEAD)
+cd $W && git reset -q --hard && git clean -fdq && git checkout -q --detach $(git -C /repo rev-parse HEAD)
 : > $LOG
 echo "repo HEAD $(git -C /repo rev-parse --short HEAD), verif HEAD $(git -C /verif rev-parse --short HEAD)" >> $LOG
 git apply $P 2>/dev/null || git apply --3way $P 2>>$LOG || { echo "PATCH DOES NOT APPLY to current HEAD" | tee -a $LOG; exit 1; }
@@ -20,5 +20,5 @@ for c in "$@"; do
   grep -E "VIOLATION" /tmp/seed3/detect-$ID-$c.out | head -2 >> $LOG
   grep -E "KNOWN|^    +[0-9]+  " /tmp/seed3/detect-$ID-$c.out | cut -c1-300 | head -8 >> $LOG
 done
-git checkout -q -- . ; git clean -fdq
+git reset -q --hard; git clean -fdq
 cat $LOG
